@@ -113,6 +113,14 @@ func getStoreRoles(p *ir.Prog) *storeRoles {
 				builds = true
 			}
 		})
+		// (or hands one out: the literal may sit in a shared opening helper)
+		if res := f.Obj.Type().(*types.Signature).Results(); !builds {
+			for i := 0; i < res.Len(); i++ {
+				if pt, ok := res.At(i).Type().(*types.Pointer); ok && types.Identical(pt.Elem(), dbsT) {
+					builds = true
+				}
+			}
+		}
 		if builds {
 			s.constructors[f] = true
 		}
